@@ -85,7 +85,20 @@ def make_cell(rng, need, kind):
                 s = sgn if sgn is not None else rng.choice([-1, 1])
                 cell[i, j] = s * rng.uniform(0.05, 0.45) * L[j]
             cell = cell * 1.35
+        if kind == "upper":
+            # tilt in the upper triangle: a = (Lx, t, t'), b = (0, Ly, t''), c = (0, 0, Lz)
+            cell = np.diag(L)
+            for (i, j) in ((0, 1), (0, 2), (1, 2)):
+                cell[i, j] = rng.choice([-1, 1]) * rng.uniform(0.1, 0.45) * L[i]
+            cell = cell * 1.35
+        if kind == "rotated":
+            cell = np.diag(L)
+            for (i, j) in ((1, 0), (2, 0), (2, 1)):
+                cell[i, j] = rng.choice([-1, 1]) * rng.uniform(0.05, 0.45) * L[j]
+            cell = (cell * 1.35) @ qrot(rand_quat(rng)).T
         cell = grid(cell)
+        if np.linalg.det(cell) < 0:
+            cell[2] = -cell[2]
         vol = abs(np.linalg.det(cell))
         widths = [vol / np.linalg.norm(np.cross(cell[(i + 1) % 3], cell[(i + 2) % 3])) for i in range(3)]
         if min(widths) > need + 0.01:
@@ -133,7 +146,7 @@ def make_case(rng, k, flavor="mixed", pattern=None, big=None):
     tol = float(atol)
     need = diam + 2 * tol
     sep = diam + 2 * tol + 0.3          # distinct groups are farther apart than this: no cross-group candidates
-    ckind = ["ortho", "tric+", "tric-", "tric", "big"][(k // 3) % 5] if big is None else ("big" if big else "tric")
+    ckind = ["ortho", "tric+", "tric-", "tric", "big", "upper", "rotated"][(k // 3) % 7] if big is None else ("big" if big else "tric")
     need_cell = max(need, sep + 0.2 if n == 1 else need)
     if flavor in ("mixed", "decoys") and n > 1:
         # a near-miss decoy (one atom displaced by up to 8 atol) must not form a genuine occurrence with its own periodic images
